@@ -196,4 +196,92 @@ theorem wf_split {bs} (h : Wf bs) : ∀ i, isBoundary bs i = true → Wf (bs.tak
         obtain ⟨h1, h2⟩ := ih _ hb'
         rw [ht, hd]; exact ⟨.cons hs h1, h2⟩
 
+/-! ### `Display` (`Formatter::pad`) -/
+
+/-- all bytes after the first of a scalar are continuation bytes -/
+theorem scalar_tail_cont {s} (hs : Scalar s) : ∃ b t, s = b :: t ∧ isCont b = false ∧ ∀ x ∈ t, isCont x = true := by
+  obtain ⟨b, t, rfl, hb⟩ := scalar_head hs
+  refine ⟨b, t, rfl, hb, ?_⟩
+  intro x hx
+  obtain ⟨i, hi, hget⟩ := List.getElem_of_mem hx
+  obtain ⟨y, hy, hc⟩ := scalar_inner (b :: t) hs (i + 1) (by omega) (by simpa using hi)
+  simp only [List.getElem?_cons_succ] at hy
+  rw [List.getElem?_eq_getElem hi, hget] at hy
+  cases hy; exact hc
+
+theorem takeChars_cont (p : Nat) (t r : List Nat) (h : ∀ x ∈ t, isCont x = true) :
+    takeChars p (t ++ r) = t ++ takeChars p r := by
+  induction t with
+  | nil => rfl
+  | cons x xs ih =>
+    have hx : isCont x = true := h x List.mem_cons_self
+    cases p <;> simp [takeChars, hx, ih (fun y hy => h y (List.mem_cons_of_mem _ hy))]
+
+/-- truncating valid UTF-8 to `p` chars keeps whole chars: the result is valid UTF-8 and a prefix -/
+theorem takeChars_wf {bs} (h : Wf bs) : ∀ p, Wf (takeChars p bs) ∧ ∃ r, bs = takeChars p bs ++ r := by
+  induction h with
+  | nil => intro p; cases p <;> exact ⟨Wf.nil, [], rfl⟩
+  | @cons s r hs _ ih =>
+    intro p
+    obtain ⟨b, t, rfl, hb, ht⟩ := scalar_tail_cont hs
+    cases p with
+    | zero =>
+      refine ⟨by simp [takeChars, hb]; exact Wf.nil, b :: t ++ r, by simp [takeChars, hb]⟩
+    | succ p =>
+      have e : takeChars (p + 1) (b :: t ++ r) = (b :: t) ++ takeChars p r := by
+        simp only [List.cons_append, takeChars, hb, Bool.false_eq_true, ↓reduceIte]
+        rw [takeChars_cont p t r ht]
+      obtain ⟨w, q, hq⟩ := ih p
+      rw [e]
+      exact ⟨Wf.cons hs w, q, by rw [List.append_assoc]; congr 1⟩
+
+theorem wf_replicate_ascii (n f : Nat) (hf : f ≤ 0x7F) : Wf (List.replicate n f) := by
+  induction n with
+  | zero => exact Wf.nil
+  | succ n ih =>
+    have : List.replicate (n + 1) f = [f] ++ List.replicate n f := rfl
+    rw [this]
+    exact Wf.cons (Scalar.one (by simp [wf1, hf])) ih
+
+theorem truncTo_wf {bs} (h : Wf bs) (p : Option Nat) : Wf (truncTo bs p) := by
+  cases p with
+  | none => exact h
+  | some p => exact (takeChars_wf h p).1
+
+theorem padTo_wf {s} (hs : Wf s) (w : Nat) (a : Align) (f : Nat) (hf : f ≤ 0x7F) : Wf (padTo s w a f) := by
+  unfold padTo
+  split
+  · exact hs
+  · cases a with
+    | left => exact Wf.append hs (wf_replicate_ascii _ f hf)
+    | right => exact Wf.append (wf_replicate_ascii _ f hf) hs
+    | center => exact Wf.append (Wf.append (wf_replicate_ascii _ f hf) hs) (wf_replicate_ascii _ f hf)
+
+/-- `Display` output is valid UTF-8 for every width, precision, alignment and ASCII fill -/
+theorem fmtPad_wf {bs} (h : Wf bs) (w p : Option Nat) (a : Align) (f : Nat) (hf : f ≤ 0x7F) : Wf (fmtPad bs w p a f) := by
+  unfold fmtPad
+  cases w with
+  | none => exact truncTo_wf h p
+  | some w => exact padTo_wf (truncTo_wf h p) w a f hf
+
+/-- without width and precision `Display` writes the string itself -/
+theorem fmtPad_plain (bs : List Nat) (a : Align) (f : Nat) : fmtPad bs none none a f = bs := rfl
+
+/-- a precision at least the number of chars does not truncate -/
+theorem takeChars_all : ∀ (bs : List Nat) (p : Nat), charCount bs ≤ p → takeChars p bs = bs := by
+  intro bs; induction bs with
+  | nil => intro p _; cases p <;> rfl
+  | cons b t ih =>
+    intro p hp
+    by_cases hb : isCont b = true
+    · have hc : charCount (b :: t) = charCount t := by simp [charCount, hb]
+      have e : takeChars p (b :: t) = b :: takeChars p t := by cases p <;> simp [takeChars, hb]
+      rw [e, ih p (by omega)]
+    · have hb' : isCont b = false := by simpa using hb
+      have : charCount (b :: t) = charCount t + 1 := by simp [charCount, hb']
+      cases p with
+      | zero => omega
+      | succ p => simp [takeChars, hb', ih p (by omega)]
+
+
 end ActixNet.Utf8
